@@ -70,6 +70,16 @@ structure CustomSpec where
   accept : Val → Option DVal
   test : Test
 
+/-- `Preprocess(fn, schema)`: Parse asserts the input's type (`Data.(F)`), calls `fn` on it and hands
+    `UnwrapPtr(out)` to the wrapped schema; Validate calls `fn` on (a pointer to) the destination and
+    stores its result before validating -/
+structure PreSpec where
+  id : Nat
+  accept : Val → Bool
+  run : Val → Val × Option PostErr
+  /-- Validate: (new destination value, error message) -/
+  runD : DVal → DVal × Option String
+
 structure FieldMeta where
   goName : String
   /-- struct tags of the destination field: (tag name, value) -/
@@ -83,6 +93,7 @@ inductive Schema where
   | ptr (elem : Schema) (zeroPointee : DVal) (notNil : Option Test)
   | struct (fs : Fields) (tests : List Test) (posts : List Post)
   | custom (c : CustomSpec)
+  | pre (ps : PreSpec) (inner : Schema)
 inductive Fields where
   | nil
   | cons (key : String) (fm : FieldMeta) (s : Schema) (rest : Fields)
@@ -94,6 +105,7 @@ def Schema.dtype : Schema → String
   | .ptr e _ _ => e.dtype
   | .struct .. => "struct"
   | .custom _ => "custom"
+  | .pre _ inner => inner.dtype
 
 def Schema.isPrim : Schema → Bool
   | .prim _ => true
